@@ -58,6 +58,13 @@ def answer (line : String) : String :=
         | "in" => t.visitIn stopF 0
         | _ => t.visitPost stopF 0
       s!"trace {traceToWire tr} | {st}"
+  | "findid" :: i :: rest => withShape rest fun t =>
+      match i.toNat? with
+      | some i =>
+        let idx := match t.findIdIndex i with | some k => toString k | none => "none"
+        let lst := " ".intercalate (t.toList.map toString)
+        s!"found {idx} list {lst}"
+      | none => "bad-op"
   | "rotate" :: i :: rest => withShape rest fun t =>
       match i.toNat? with
       | some i =>
